@@ -427,8 +427,12 @@ theorem Ext.isReferenceActivated (f : FUid) : Pres Ext (isReferenceActivated f) 
   unfold CoreVM.isReferenceActivated; ext_auto
 theorem Ext.isChildActivated (f : FUid) : Pres Ext (isChildActivated f) := by
   unfold CoreVM.isChildActivated; ext_auto
+theorem Ext.deactivatesRef (d : Bool) (f : FUid) : Pres Ext (deactivatesRef d f) := by
+  cases d
+  · rw [deactivatesRef_false]; exact Pres.pure extPO _
+  · rw [deactivatesRef_true]; exact Ext.isReferenceActivated f
 macro_rules | `(tactic| ext_leaf) => `(tactic| first
-  | exact Ext.restartActivated _ _ _ | exact Ext.isReferenceActivated _ | exact Ext.isChildActivated _)
+  | exact Ext.restartActivated _ _ _ | exact Ext.isReferenceActivated _ | exact Ext.isChildActivated _ | exact Ext.deactivatesRef _ _)
 
 /-- **`_abort_flow` (with its recursion into child flows and the action clean-up) loses nothing that is queued, removes no
     instance and does not touch the program** — on normal return and when an exception leaves it -/
@@ -580,6 +584,10 @@ theorem Same.isReferenceActivated (f : FUid) : Pres Same (isReferenceActivated f
   unfold CoreVM.isReferenceActivated; same_auto
 theorem Same.isChildActivated (f : FUid) : Pres Same (isChildActivated f) := by
   unfold CoreVM.isChildActivated; same_auto
+theorem Same.deactivatesRef (d : Bool) (f : FUid) : Pres Same (deactivatesRef d f) := by
+  cases d
+  · rw [deactivatesRef_false]; exact Pres.pure samePO _
+  · rw [deactivatesRef_true]; exact Same.isReferenceActivated f
 
 /-! #### "ends in `Q`": a calculus for facts established by the LAST statements of a computation -/
 
@@ -701,9 +709,11 @@ theorem abortFlow_aborts (fuel : Nat) (f : FUid) (sc : List Score) (s s' : VM) (
     (h : abortFlow (fuel + 1) f sc false s = .ok () s') : Aborted f sc s' := by
   have hex : (findInst s'.ixs.ix f).isSome := (ok_of_pres (Ext.abortFlow (fuel + 1) f sc false) h).insts f (by rw [hi]; rfl)
   unfold abortFlow at h
+  rw [deactivatesRef_false] at h
   obtain ⟨b, s0, h0, hA⟩ := bind_ok h
   clear h
-  have e0 : s0.ixs = s.ixs := ok_of_pres (IxSame.of_same (Same.isReferenceActivated f)) h0
+  have e0 : s0.ixs = s.ixs ∧ b = false := by cases h0; exact ⟨rfl, rfl⟩
+  obtain ⟨e0, rfl⟩ := e0
   simp only [Bool.false_and, Bool.false_eq_true, if_false] at hA
   obtain ⟨i0, s0', h1, hB⟩ := bind_ok hA
   clear hA
@@ -748,10 +758,10 @@ theorem advance_error_path (fuel : Nat) (k : Key) (s s1 s2 : VM) (i : Inst) (hd 
     (hcfg : cfgOfInst k.1 s = .ok cfg s)
     (hhd : i.findHead k.2 = some hd) (hact : hd.status = .active)
     (hpre : (do
-        setHeadPos k (hd.pos + 1)
         if (← getInst k.1).status = FlowStatus.waiting then setFlowStatus k.1 FlowStatus.starting
         pure (decide ((← getInst k.1).status = FlowStatus.starting))) s = .ok starting s1)
     (hraise : (do
+        setHeadPos k (hd.pos + 1)
         let newHeads ← slide fuel k.1 k.2
         if newHeads.isEmpty then pure [] else advanceHeadFront fuel newHeads) s1 = .error (.py c m) s2)
     (hhd2 : (findInst s2.ixs.ix k.1).bind (·.findHead k.2) = some hd2) (hpos : hd2.pos < cfg.elements.size) :
@@ -767,15 +777,14 @@ theorem advance_error_path (fuel : Nat) (k : Key) (s s1 s2 : VM) (i : Inst) (hd 
   simp only [bind_assoc, pure_bind]
   rw [bind_ok_eq hcfg, bind_ok_eq g3]
   simp only [bind_assoc, pure_bind, hact, hl]
-  simp only [reduceCtorEq, decide_false, Bool.false_or, Bool.not_true, Bool.false_eq_true, if_false, Bool.false_and, if_true,
+  simp only [reduceCtorEq, decide_false, decide_true, Bool.false_or, Bool.not_true, Bool.false_eq_true, if_false, Bool.false_and, if_true,
     bind_assoc, pure_bind]
   have g4 : getRest s = .ok s.r s := rfl
   rw [bind_ok_eq g4]
-  try simp only [reduceCtorEq, decide_false, Bool.false_or, Bool.not_true, Bool.false_eq_true, if_false, Bool.false_and, if_true,
+  try simp only [reduceCtorEq, decide_false, decide_true, Bool.false_or, Bool.not_true, Bool.false_eq_true, if_false, Bool.false_and, if_true,
     bind_assoc, pure_bind]
-  obtain ⟨_, sa, hsp, hpre⟩ := bind_ok hpre
   obtain ⟨i1, sa', hg1, hpre⟩ := bind_ok hpre
-  rw [bind_ok_eq hsp, bind_ok_eq hg1]
+  rw [bind_ok_eq hg1]
   have g5 : getHead? k s2 = .ok (some hd2) s2 := by
     simp [getHead?, getIx, bind, EStateM.bind, get, getThe, MonadStateOf.get, EStateM.get, pure, EStateM.pure, hhd2]
   have hnp : ¬ (hd2.pos ≥ cfg.elements.size) := by omega
